@@ -6,3 +6,4 @@
 (lemma extColsWF-snoc :induction n (forall ((s Str) (l Seq_Node) (x Node) (n Int)) (! (=> (<= n (Seq_Node.len l)) (= (extColsWF s (Seq_Node.snoc l x) n) (extColsWF s l n))) :pattern ((extColsWF s (Seq_Node.snoc l x) n)))))
 (lemma sumColsWF-snoc :induction n (forall ((s Str) (l Seq_Node) (x Node) (n Int)) (! (=> (<= n (Seq_Node.len l)) (= (sumColsWF s (Seq_Node.snoc l x) n) (sumColsWF s l n))) :pattern ((sumColsWF s (Seq_Node.snoc l x) n)))))
 (lemma propsWF-snoc :induction n (forall ((l Seq_Node) (x Node) (n Int)) (! (=> (<= n (Seq_Node.len l)) (= (propsWF (Seq_Node.snoc l x) n) (propsWF l n))) :pattern ((propsWF (Seq_Node.snoc l x) n)))))
+(lemma projColsWF-snoc :induction n (forall ((l Seq_Node) (x Node) (n Int)) (! (=> (<= n (Seq_Node.len l)) (= (projColsWF (Seq_Node.snoc l x) n) (projColsWF l n))) :pattern ((projColsWF (Seq_Node.snoc l x) n)))))
